@@ -42,9 +42,24 @@ def leaves(x, out=None):
     return out
 
 
+import operator as _op
+OPFN = {"add": _op.add, "sub": _op.sub, "mul": _op.mul, "truediv": _op.truediv, "floordiv": _op.floordiv, "mod": _op.mod,
+        "divmod": divmod, "pow": _op.pow, "lshift": _op.lshift, "rshift": _op.rshift, "and": _op.and_, "or": _op.or_,
+        "xor": _op.xor, "lt": _op.lt, "le": _op.le, "eq": _op.eq, "ne": _op.ne, "gt": _op.gt, "ge": _op.ge}
+# operator bodies "op:<operator>:<form>": form ab = a op b, ka = constant op a (reflected method), ak = a op constant
+OP_CONST = {"truediv": (12, 3), "pow": (2, 2), "lshift": (1, 2), "rshift": (64, 1), "floordiv": (17, 4), "mod": (17, 4), "divmod": (17, 4)}
+OP_BODIES = ["op:%s:%s" % (o, f) for o in OPFN for f in ("ab", "ka", "ak") if not (o in ("pow", "lshift", "rshift", "truediv") and f == "ab")]
+
+
 def body(name):
     def fn(*args):
         L = leaves(list(args))
+        if name.startswith("op:"):
+            _, o, form = name.split(":")
+            a, b = L[0], L[-1]
+            kl, kr = OP_CONST.get(o, (17, 5))
+            r = OPFN[o](a, b) if form == "ab" else (OPFN[o](kl, a) if form == "ka" else OPFN[o](a, kr))
+            return list(r) if isinstance(r, tuple) else r
         if name == "identity":
             return list(args)
         if name == "constant" or not L:
@@ -229,6 +244,11 @@ def sequences(level):
         for a in one_arg + two_arg + [[]]:
             calls.append((b, a))
     seqs += [[c] for c in calls]
+    # every operator (plain, reflected with a constant on the left, constant on the right) as a body: nothing but the
+    # arguments and the result may become public, whatever the operator creates internally
+    opcalls = [(b, a) for b in OP_BODIES for a in ([6], [S], [3, S], [S, 3])]
+    seqs += [[c] for c in opcalls]
+    seqs += [[("product", [3]), c] for c in opcalls[:: 2]]
     sub = calls[:: (2 if level >= 1 else 5)]
     seqs += [[a, b] for a in sub for b in sub[:: 3]]
     sub3 = sub[:: 3]
@@ -257,7 +277,7 @@ def run(ctx):
     e1.dedupe_violations(ctx)
     ctx.cov.update(agg)
     ctx.cov["states"] = agg["sequences"]
-    ctx.cov["distinct_outcomes"] = len(ARG_SHAPES) * len(BODIES)
+    ctx.cov["distinct_outcomes"] = len(ARG_SHAPES) * len(BODIES) + len(OP_BODIES)
     ctx.cov["traces_validated_against_impl"] = agg["executions"]
     ctx.cov["exhaustive"] = True
     ctx.cov["rule"] = ("argument structures: %d shapes (scalars int/bool/float/str/None/secret, nested lists, tuples, dicts to "
